@@ -216,7 +216,13 @@ func runCheck(ld *Loaded, db *SpecDB, work string, t0 time.Time) int {
 				}
 			}
 			all = kept
+			// the second pass is a bounded stand-in: it gets half the path budget, so a
+			// function that cannot be decided this way is given up on quickly (and reported as
+			// undecidable) instead of flooding the solvers
+			savedPaths := ex.maxPaths
+			ex.maxPaths = savedPaths / 2
 			nrep := ex.verifyFunction(fn)
+			ex.maxPaths = savedPaths
 			nrep.Dependency = rep.Dependency
 			reports[i] = nrep
 			admitted[rep.Key] = admit(nrep)
